@@ -81,3 +81,107 @@ Example C15_constructed_hyps :
 Proof. vm_compute. auto 10. Qed.
 Example C15_constructed_args_good : args_all ex_args (arg_good all_classes).
 Proof. exact ex_args_good. Qed.
+
+(* ---- custom.py: Custom.from_children / from_value juxtapose their values; a number expression that starts
+   with a unary sign right after another number expression is wrapped in parentheses (_disambiguate_values).
+   Model: CustomValues.v (the loop with its `prev` variable, the up-front _check_detachable, the grammar's
+   repeated{_custom_value} with NumExpr's parse_add read greedily); tied per run by CustomValuesRun.check_dcase /
+   check_pcase / check_ucase (harness/c15.py: run_custom). ------------------------------------------------- *)
+From AB Require CustomValues CustomValuesProofs NumExpr.
+From AB Require Import Prelude.
+
+(* no two values merge: the values yielded for ANY argument list print to a token stream that the grammar
+   splits into exactly these values (spacing inside expressions forgotten) *)
+Theorem C15_custom_disambiguate_reparses : forall values after out,
+  CustomValues.disambiguate values = (after, Ok out) ->
+  CustomValues.parse_values (CustomValues.render_values (map CustomValues.cv_val out))
+  = Some (map CustomValues.strip_value (map CustomValues.cv_val out)).
+Proof. exact CustomValuesProofs.disambiguate_reparses. Qed.
+Theorem C15_custom_disambiguate_reparses_exact : forall values after out,
+  CustomValues.disambiguate values = (after, Ok out) ->
+  Forall CustomValuesProofs.gapless (map CustomValues.cv_val out) ->
+  CustomValues.parse_values (CustomValues.render_values (map CustomValues.cv_val out))
+  = Some (map CustomValues.cv_val out).
+Proof. exact CustomValuesProofs.disambiguate_reparses_exact. Qed.
+(* without the wrapping the statement is false: [1; -2] is accepted by the check but prints to `1 -2`, one value *)
+Theorem C15_custom_undisambiguated_refuted : exists values,
+  CustomValues.check_detachable [] values = Ok tt /\
+  CustomValues.parse_values (CustomValues.render_values (map CustomValues.cv_val values))
+    <> Some (map CustomValues.strip_value (map CustomValues.cv_val values)) /\
+  CustomValues.parse_values (CustomValues.render_values (map CustomValues.cv_val values)) =
+    Some [CustomValues.VNum (NumExpr.AOp (NumExpr.AMul (NumExpr.MAtom (NumExpr.Num [49]))) [] true []
+                                         (NumExpr.MAtom (NumExpr.Num [50])))].
+Proof. exact CustomValuesProofs.undisambiguated_reparse_refuted. Qed.
+(* same length, same objects; a non-number is untouched; a number/amount keeps its currency and its value (for any
+   arithmetic); it gains one pair of parentheses exactly when it follows a NumberExpr and starts with a sign *)
+Theorem C15_custom_values_kept :
+  forall (D : Type) (dadd dsub dmul ddiv : D -> D -> D) (dneg : D -> D) (num_value : list Z -> D) values after out,
+  CustomValues.disambiguate values = (after, Ok out) ->
+  length out = length values /\
+  forall i c, nth_error values i = Some c ->
+    exists c', nth_error out i = Some c' /\
+      CustomValues.cv_id c' = CustomValues.cv_id c /\
+      CustomValuesProofs.number_value D dadd dsub dmul ddiv dneg num_value (CustomValues.cv_val c')
+        = CustomValuesProofs.number_value D dadd dsub dmul ddiv dneg num_value (CustomValues.cv_val c) /\
+      CustomValuesProofs.currency_of (CustomValues.cv_val c') = CustomValuesProofs.currency_of (CustomValues.cv_val c) /\
+      (CustomValuesProofs.number_of (CustomValues.cv_val c) = None -> CustomValues.cv_val c' = CustomValues.cv_val c) /\
+      CustomValues.cv_val c' =
+        (if CustomValuesProofs.prev_is_num_at (map CustomValues.cv_val values) i
+            && CustomValuesProofs.starts_unary (CustomValues.cv_val c)
+         then CustomValuesProofs.wrap_value (CustomValues.cv_val c) else CustomValues.cv_val c).
+Proof. exact CustomValuesProofs.disambiguate_values_kept. Qed.
+Theorem C15_custom_disambiguate_idempotent : forall values after out,
+  CustomValues.disambiguate values = (after, Ok out) -> CustomValues.disambiguate out = (out, Ok out).
+Proof. exact CustomValuesProofs.disambiguate_idempotent. Qed.
+(* a refused call (ValueError) has edited nothing; it is refused exactly when an argument is given twice or does
+   not span its store; without the up-front check a refused call leaves parentheses behind *)
+Theorem C15_custom_refusal_atomic : forall values after e,
+  CustomValues.disambiguate values = (after, Err e) -> after = values /\ e = ValueError.
+Proof. exact CustomValuesProofs.disambiguate_refusal_atomic. Qed.
+Theorem C15_custom_refuses_iff : forall values,
+  (exists out, CustomValues.disambiguate values = (out, Ok out)) <->
+  (NoDup (map CustomValues.cv_id values) /\ forall c, In c values -> CustomValues.cv_free c = true).
+Proof. exact CustomValuesProofs.disambiguate_refuses_iff. Qed.
+Theorem C15_custom_unchecked_refusal_refuted : exists values after,
+  CustomValues.disambiguate_unchecked values = (after, Err ValueError) /\ after <> values /\
+  CustomValues.disambiguate values = (values, Err ValueError).
+Proof. exact CustomValuesProofs.unchecked_refusal_not_atomic. Qed.
+(* value level: what from_value builds from a scalar reads back as that scalar (a datetime as its date), given the
+   token classes' own round trips (C12) and the carrier laws of C13_from_value_exact; _update_raw succeeds exactly on
+   matching kinds *)
+Theorem C15_custom_simplify_unsimplify :
+  forall (D : Type) (dadd dsub dmul ddiv : D -> D -> D) (dneg dabs : D -> D) (dltz : D -> bool)
+         (num_value : list Z -> D) (num_text : D -> list Z)
+         (str_text str_value : list Z -> list Z)
+         (date_text : CustomValues.date -> list Z) (date_value : list Z -> CustomValues.date)
+         (bool_text : bool -> list Z) (bool_value : list Z -> bool),
+  (forall s, str_value (str_text s) = s) -> (forall d, date_value (date_text d) = d) ->
+  (forall b, bool_value (bool_text b) = b) ->
+  (forall v, num_value (num_text (dabs v)) = dabs v) ->
+  (forall v, dltz v = true -> dneg (dabs v) = v) -> (forall v, dltz v = false -> dabs v = v) ->
+  forall v,
+  CustomValues.simplify_value D dadd dsub dmul ddiv dneg num_value str_value date_value bool_value
+    (CustomValues.unsimplify_value D dabs dltz num_text str_text date_text bool_text v)
+  = CustomValuesProofs.read_back D dadd dsub dmul ddiv dneg num_value str_value date_value bool_value v.
+Proof. exact CustomValuesProofs.simplify_unsimplify. Qed.
+
+(* non-vacuity: [1; -2 USD; "s"; 3; -4*5] is accepted, the two followers that start with a sign are wrapped, and the
+   printed stream splits back into the five values *)
+Example C15_custom_example :
+  let one := NumExpr.AMul (NumExpr.MAtom (NumExpr.Num [49])) in
+  let neg s := NumExpr.Unary true [] (NumExpr.Num s) in
+  let values := [CustomValues.CV 1 true (CustomValues.VNum one);
+                 CustomValues.CV 2 true (CustomValues.VAmount (NumExpr.AMul (NumExpr.MAtom (neg [50]))) [85; 83; 68]);
+                 CustomValues.CV 3 true (CustomValues.VStr [34; 115; 34]);
+                 CustomValues.CV 4 true (CustomValues.VNum (NumExpr.AMul (NumExpr.MAtom (NumExpr.Num [51]))));
+                 CustomValues.CV 5 true (CustomValues.VNum (NumExpr.AMul
+                     (NumExpr.MOp (NumExpr.MAtom (neg [52])) [] false [] (NumExpr.Num [53]))))] in
+  exists out, CustomValues.disambiguate values = (out, Ok out) /\ out <> values /\
+    Forall CustomValuesProofs.gapless (map CustomValues.cv_val out) /\
+    length (CustomValues.render_values (map CustomValues.cv_val out)) = 14%nat /\
+    CustomValues.parse_values (CustomValues.render_values (map CustomValues.cv_val out))
+      = Some (map CustomValues.cv_val out).
+Proof.
+  eexists. split; [vm_compute; reflexivity|]. split; [discriminate|]. split; [repeat constructor|].
+  split; vm_compute; reflexivity.
+Qed.
